@@ -66,6 +66,10 @@ class _Buf:
         return self
 
     def pqv_compare(self, op, other, swapped):
+        # an elementwise test of the cell against a number: a mask the rule can name (which entries it selects depends
+        # on the probabilities, the FORM sum(where(mask, log v, 0)) is what R18.2 judges)
+        if isinstance(other, (int, float)) and not isinstance(other, bool):
+            return Tagged('mask', type(op).__name__, self.value, other, swapped)
         return TOP
 
 
@@ -73,6 +77,14 @@ class _H181(Hooks):
     def __init__(self, syms, nq):
         self.syms = syms
         self.nq = nq
+
+    def compare(self, it, op, a, b, node):
+        # an elementwise test of the per-qubit vector against a number: a mask the rule can name (see _Buf.pqv_compare)
+        if isinstance(op, (ast.Gt, ast.GtE, ast.Lt, ast.LtE, ast.NotEq, ast.Eq)):
+            for x, y, sw in ((a, b, False), (b, a, True)):
+                if isinstance(x, (Poly, Tagged, _Buf)) and isinstance(y, (int, float)) and not isinstance(y, bool):
+                    return Tagged('mask', type(op).__name__, x.value if isinstance(x, _Buf) else x, y, sw)
+        return NOT_HANDLED
 
     def attr(self, it, obj, name, node):
         if isinstance(obj, Sym) and obj.name == 'code' and name == 'n':
@@ -264,7 +276,11 @@ class _H183(Hooks):
 
     def store_subscript(self, it, obj, idx, value, node, env):
         if isinstance(obj, Tagged) and obj.tag == 'new_edge':
-            it.trace.append(('store', idx, value))
+            if isinstance(idx, (list, tuple)):          # fancy index: one store per listed position
+                for i_ in idx:
+                    it.trace.append(('store', i_, value))
+            else:
+                it.trace.append(('store', idx, value))
             return None
         return NOT_HANDLED
 
